@@ -682,6 +682,10 @@ func (m *monitor) checkDeleteJustified(e *sim.Entry, p *corev1.Pod, job *executi
 		reasons = append(reasons, "kill")
 		m.deadlineCrossed = true
 	}
+	// the kill time as far as the controller can know it (a later edit may not have reached its cache)
+	if cj := m.ctrlCachedJob(keyOf(job)); cj != nil && cj.Spec.KillTimestamp != nil && !cj.Spec.KillTimestamp.Time.After(now) {
+		reasons = append(reasons, "kill(cached)")
+	}
 	if job.DeletionTimestamp != nil {
 		reasons = append(reasons, "job-deleted")
 	}
